@@ -73,7 +73,7 @@ def build_scene(sc: dict):
         kw = dict(name=d.get("name", f"det{n}"), partial_grid_shape=shape, switch=make_switch(d.get("switch")), plot=False)
         k = d["kind"]
         if k == "energy":
-            det = fdtdx.EnergyDetector(**kw, as_slices=False)
+            det = fdtdx.EnergyDetector(**kw, as_slices=False, reduce_volume=d.get("reduce", False))
         elif k == "field":
             det = fdtdx.FieldDetector(**kw, reduce_volume=d.get("reduce", False), exact_interpolation=d.get("exact", True))
         elif k == "poynting":
